@@ -388,6 +388,15 @@ func concurrentScenarios() []*sched.Scenario {
 			vrt.Par(func() { l.MoveBefore(hs[3], hs[0]) }, func() { l.Remove(hs[1]) }, func() { l.PushFront(5) })
 			wellFormed(l, map[int]int{1: 1, 3: 1, 4: 1, 5: 1})
 		}},
+		{Name: "threadsafe/2xremove-same-handle-vs-reader", Run: func() {
+			l, hs := mk()
+			vrt.Par(
+				func() { l.Remove(hs[1]) },
+				func() { l.Remove(hs[1]) },
+				func() { _ = l.Len(); _ = l.Front() },
+			)
+			wellFormed(l, map[int]int{1: 1, 3: 1, 4: 1})
+		}},
 		{Name: "threadsafe/insertafter-vs-moveafter", Run: func() {
 			l, hs := mk()
 			vrt.Par(func() { l.InsertAfter(6, hs[1]) }, func() { l.MoveAfter(hs[0], hs[2]) })
